@@ -135,7 +135,7 @@ class Schema:
         self.rec_keys = {}
         ns = {'INT': INT, 'BOOL': BOOL, 'REAL': REAL, 'NONE': NONE, 'STR': STR, 'FUNC': FUNC, 'OCTETS': OCTETS,
               'TRef': TRef, 'TList': TList, 'TTable': TTable, 'TOpt': TOpt, 'TUnion': TUnion, 'TFunc': TFunc,
-              'TEnum': TEnum, 'TQueue': TQueue, 'ANY': T_ANY,
+              'TEnum': TEnum, 'TQueue': TQueue, 'ANY': T_ANY, 'TTuple': TTuple,
               'cls': self._cls, 'rec': self._rec, 'key': self._key}
         exec(compile(open(path).read(), path, 'exec'), ns)
 
@@ -176,7 +176,7 @@ class Schema:
 def parse_type(s, schema=None):
     ns = {'int': INT, 'bool': BOOL, 'real': REAL, 'none': NONE, 'str': STR, 'func': FUNC, 'octets': OCTETS,
           'ref': TRef, 'list': TList, 'table': TTable, 'opt': TOpt, 'union': TUnion, 'enum': TEnum,
-          'funcT': TFunc, 'queue': TQueue, 'kwargs': 'kwargs', 'any': 'any', 'ANY': T_ANY}
+          'funcT': TFunc, 'queue': TQueue, 'tuple': TTuple, 'kwargs': 'kwargs', 'any': 'any', 'ANY': T_ANY}
     try:
         return eval(s, {'__builtins__': {}}, _TypeNS(ns))
     except Exception as e:
